@@ -53,6 +53,17 @@
 (*                     its encoding decodes into the interface.            *)
 (* Labels are printed as JSON (ACTION_CONSTRAINT Emit) and replayed on the *)
 (* real code by harness/props/c11.                                         *)
+(*                                                                         *)
+(* Deviations of the code from this design, named where they occur:        *)
+(*   - AsCoded = TRUE: decodeCDCInterface resolves the prefix among ALL    *)
+(*     registered types and rv.Set()s the result: a registered type that   *)
+(*     does not implement the target interface is a panic, not an error    *)
+(*     (verdict class "panic"; NoCrashV / RegNoPanic fail in that model);  *)
+(*   - field ib of a decoder result: the error arose inside the body of an *)
+(*     interface value; the code discards that error and carries on (the   *)
+(*     harness records, but does not compare, what happens then);          *)
+(*   - the map decoder pre-sizes the map with the claimed entry count      *)
+(*     (mutation class "map-hugelen": an allocation, not a grammar, issue).*)
 (***************************************************************************)
 EXTENDS Integers, Sequences, FiniteSets, TLC, Json
 
@@ -419,12 +430,14 @@ StrictTargets == {"any", "bytes", "u64", "u8", "big", "bool", "arr1", "arr2", "a
 B1(set) == {<<x>> : x \in set}
 CommonHdr == {0, 1, 127, 128, 129, 130, 183, 184, 192, 193, 194, 195, 196, 247, 248, 255}
 Alphabet(t) ==
-  CASE t = "any"   -> B1(CommonHdr \cup (IF Wide THEN {55, 56, 131, 132, 185, 191, 249} ELSE {}))
+  CASE t = "any"   -> IF Extra > 0 /\ ~Wide
+                      THEN B1({0, 1, 127, 128, 129, 130, 131, 184, 192, 193, 194, 195, 196, 197, 248, 255})   \* one byte more, fewer symbols
+                      ELSE B1(CommonHdr \cup (IF Wide THEN {55, 56, 131, 132, 185, 191, 249} ELSE {}))
     [] t \in {"bytes", "raw"} -> B1({0, 1, 127, 128, 129, 130, 184, 185, 192, 193, 255} \cup (IF Wide THEN {55, 56, 183, 248} ELSE {}))
     [] t \in {"u64", "big"}   -> B1({0, 1, 127, 128, 129, 130, 136, 137, 184, 192, 255}) \cup {Rep(7, 255)} \cup (IF Wide THEN B1({131, 56, 193}) ELSE {})
     [] t \in {"u8", "bool"}   -> B1({0, 1, 2, 127, 128, 129, 130, 184, 192, 193, 255})
     [] t \in {"arr1", "arr2"} -> B1({0, 1, 127, 128, 129, 130, 131, 184, 192, 255})
-    [] t = "i64"   -> B1({43, 45, 48, 49, 55, 56, 65, 97, 102, 103, 128, 129, 130, 131, 144, 145, 192} \cup (IF Wide THEN {95, 132, 193} ELSE {}))
+    [] t = "i64"   -> B1({43, 45, 48, 49, 56, 65, 97, 102, 103, 128, 129, 130, 144, 145, 192} \cup (IF Wide THEN {55, 95, 131, 132, 193} ELSE {}))
                       \cup {Rep(15, 102), Rep(15, 48)}
     [] t = "rec"   -> B1({0, 1, 5, 128, 129, 192, 193, 194, 195, 196, 197, 255} \cup (IF Wide THEN {198, 130} ELSE {}))
     [] t = "recq"  -> B1({0, 1, 128, 192, 193, 194, 195, 196, 255} \cup (IF Wide THEN {129, 197} ELSE {}))
@@ -434,18 +447,19 @@ Alphabet(t) ==
     [] t = "ifcs"  -> {Disfix[1], Disfix[2], Disfix[3], UnknownDisfix}
                       \cup B1({0, 1, 128, 192, 193, 194, 200, 201, 202, 203, 255} \cup (IF Wide THEN {129, 199, 204} ELSE {}))
     [] t = "lifc"  -> {Disfix[1], Disfix[3], SubSeq(Disfix[1], 1, 6)} \cup B1({0, 1, 128, 192, 193, 200, 201, 202, 208, 209, 255})
-    [] t = "wt"    -> {Disfix[1], Disfix[3], UnknownDisfix, SubSeq(Disfix[1], 1, 6)} \cup B1({0, 1, 128, 192, 193, 194, 255})
+    [] t = "wt"    -> {Disfix[1], Disfix[3], UnknownDisfix, SubSeq(Disfix[1], 1, 6)} \cup B1({0, 128, 192, 193, 255} \cup (IF Wide THEN {1, 194} ELSE {}))
     [] t = "map"   -> B1({45, 48, 49, 50, 192, 193, 194, 214, 215, 216, 237, 238, 1, 128, 0})
                       \cup {<<148>> \o K1 \o <<1>>, <<148>> \o K2 \o <<1>>, <<148>> \o K1 \o <<128>>, <<148>> \o K1, <<147>> \o Rep(19, 0)}
 BytesTargets == {"any", "bytes", "raw", "u64", "big", "u8", "bool", "arr1", "arr2", "i64", "rec", "recq", "ptru",
                  "ifct", "ifce", "ifcs", "lifc", "wt", "map"}
-MaxChunks(t) == Extra + (CASE t \in {"ifcs", "lifc", "map"} -> 6
+MaxChunks(t) == Extra + (CASE t \in {"ifcs", "lifc", "map", "rec", "recq"} -> 6
                            [] t \in {"u8", "bool", "arr1", "arr2", "ptru", "u64", "big", "i64"} -> 4
                            [] OTHER -> 5)
-MaxBytes(t) == Extra + (CASE t \in {"any", "bytes", "raw", "u8", "bool", "arr1", "arr2", "ptru", "rec", "recq"} -> 5
+MaxBytes(t) == Extra + (CASE t \in {"any", "bytes", "raw", "u8", "bool", "arr1", "arr2", "ptru"} -> 5
+                          [] t \in {"rec", "recq"} -> 6
                           [] t \in {"u64", "big"} -> 10
                           [] t = "i64" -> 18
-                          [] t \in {"ifct", "ifce", "wt"} -> 10
+                          [] t \in {"ifct", "ifce", "wt"} -> 11
                           [] t = "ifcs" -> 12
                           [] t = "lifc" -> 18
                           [] t = "map" -> 46)
